@@ -32,7 +32,7 @@ def _tetra(rng):
 
 def pre_build():
     import translate
-    return [translate.gen_bond_wrap()]
+    return [translate.gen_bond_wrap(), translate.gen_bond_match_shape()]
 
 
 def gen_cases(rng, tier):
